@@ -53,7 +53,8 @@ class HarnessError(Exception):
 PROFILES = {
     # weights / switches per check; see DESIGN.md section 4
     "C08": dict(nreq=(1, 2), mutation=(1, 3), variants=False, reps=2,
-                configs="all", boom=(1, 5), overlap=True),
+                configs="all", boom=(1, 5), overlap=True, l2=(1, 2),
+                l2_reps=2),
     "C09": dict(nreq=(1, 1), mutation=(1, 1), force_mutation=True,
                 variants=False, reps=2, configs="all", boom=(0, 1)),
     "C04": dict(nreq=(2, 6), mutation=(1, 3), variants=False, reps=1,
@@ -96,7 +97,7 @@ class Request:
     __slots__ = ("op", "text", "variables", "operation_name", "wseed",
                  "faults", "exp", "variant", "nonfinite", "configs",
                  "ninstr", "mws", "tracer", "skew", "preparsed", "index",
-                 "gen", "document", "repeat_of", "exp_snapshot")
+                 "gen", "document", "repeat_of", "exp_snapshot", "l2")
 
 
 def _gen_request(draws, spec, bundle, idx, profile, want_mut, tier="quick",
@@ -205,7 +206,7 @@ def _finish_request(draws, spec, req, idx, profile, rs, tier):
     if req.variant == "normal":
         base = expected_response(spec, op, World(spec, req.wseed,
                                                  nonfinite=req.nonfinite))
-        nf = fs.weighted((4, 3, 2, 1), "n_faults")
+        nf = fs.weighted((4, 3, 2, 1, 1, 1), "n_faults")
         kinds = ["err", "null", "errx", "errs"]
         if profile.get("boom", (0, 1))[0] and fs.chance(
                 *profile["boom"], "boom_on"):
@@ -230,7 +231,7 @@ def _finish_request(draws, spec, req, idx, profile, rs, tier):
         req.configs = list(CONFIGS)
         # L2 (real threads, line-granular pre-emption): always in the
         # thorough tier, for a quarter of the requests in the quick tier
-        if tier == "thorough" or rs.chance(1, 4, "l2"):
+        if tier == "thorough" or rs.chance(*profile.get("l2", (1, 4)), "l2"):
             req.configs.append("threads")
     elif which == "two":
         a = rs.below(len(CONFIGS), "cfg_a")
@@ -238,6 +239,26 @@ def _finish_request(draws, spec, req, idx, profile, rs, tier):
         req.configs = [CONFIGS[a]] + ([CONFIGS[b]] if b != a else [])
     else:
         req.configs = [CONFIGS[rs.below(len(CONFIGS), "cfg")]]
+    # The L2 run of a request gets extra resolver errors: the state shared
+    # between worker threads (error list, gather slots) is only contended when
+    # several fields fail or complete in different workers at the same time.
+    req.l2 = None
+    if "threads" in req.configs and req.variant == "normal" and \
+            req.exp is not None and not req.exp.crash:
+        import copy
+        l2 = copy.copy(req)
+        l2.faults = dict(req.faults)
+        cand = [p for p, what in base.positions if what == "field"]
+        for _ in range(2):
+            if cand:
+                l2.faults.setdefault(
+                    cand[fs.below(len(cand), "l2_fault_at")],
+                    ("err", "errs", "null")[fs.below(3, "l2_fault_kind")])
+        l2.exp = expected_response(
+            spec, op, World(spec, req.wseed, l2.faults,
+                            nonfinite=req.nonfinite))
+        l2.exp_snapshot = l2.exp
+        req.l2 = l2
     req.ninstr = 1
     req.mws = []
     req.tracer = False
@@ -250,6 +271,9 @@ def _finish_request(draws, spec, req, idx, profile, rs, tier):
         if req.tracer and rs.chance(1, 2, "skew"):
             req.skew = [(-5.0, 0.0, 3600.0, -0.001)[rs.below(4, "skew_v")]
                         for _ in range(1 + rs.below(4, "skew_n"))]
+    if req.l2 is not None:
+        for a in ("ninstr", "mws", "tracer", "skew"):
+            setattr(req.l2, a, getattr(req, a))
     return req
 
 
@@ -378,7 +402,7 @@ def run_case(draws, prop, tier="quick"):
             mode = MODE_OF[config]
             reps = profile["reps"] if mode != "blocking" else 1
             if config == "threads" and tier != "thorough":
-                reps = 1
+                reps = profile.get("l2_reps", 1)
             for rep in range(reps):
                 sname = "sched:%d:%s:%d" % (idx, config, rep)
                 sched = draws.stream(sname)
@@ -389,9 +413,11 @@ def run_case(draws, prop, tier="quick"):
                 else:
                     policy = {"kind": POLICIES[
                         sched.below(len(POLICIES), "policy")]}
-                out, hooks = _execute(config, bundle, spec, req, sched,
+                rq = req.l2 if (config == "threads"
+                                and req.l2 is not None) else req
+                out, hooks = _execute(config, bundle, spec, rq, sched,
                                       policy)
-                _evaluate(res, prop, config, req, out, hooks)
+                _evaluate(res, prop, config, rq, out, hooks)
                 ev = out.kernel.log.events
                 digest.update(sname.encode())
                 digest.update(out.kernel.log.digest().encode())
@@ -436,6 +462,8 @@ def run_case(draws, prop, tier="quick"):
             res.count("probe:merged_field_groups", e.merged_groups)
             res.count("probe:fragment_applied", e.frag_applied)
             res.count("probe:fragment_rejected", e.frag_rejected)
+            res.count("probe:divergent_merge_groups",
+                      1 if e.divergent_groups else 0)
             res.count("fired:F1c_argument_coercion_error", e.arg_errors)
             if e.crash:
                 res.count("probe:crash_expected")
